@@ -22,11 +22,14 @@ import (
 	"unicode/utf8"
 
 	"github.com/logrange/logrange/api"
+	"github.com/logrange/logrange/api/rpc"
 	"github.com/logrange/logrange/pkg/lql"
 	"github.com/logrange/logrange/pkg/model/tag"
 	"github.com/logrange/logrange/pkg/tindex"
 	"github.com/logrange/logrange/pkg/utils/kvstring"
 	"github.com/logrange/range/pkg/records/journal"
+	"github.com/logrange/range/pkg/transport"
+	errors2 "github.com/logrange/range/pkg/utils/errors"
 	. "verifharness/common"
 )
 
@@ -38,9 +41,20 @@ type Replay struct {
 	Sets    [][]byte `json:"sets,omitempty"` // tag texts (proper spellings) of the sets an expression is applied to
 	Show    []string `json:"show,omitempty"`
 	Restart bool     `json:"restart,omitempty"` // hist: after the history the index is read back from its file by a new service
+	Ops     []Op     `json:"ops,omitempty"`     // ops: GetOrCreateJournal / GetJournal / Delete in this order
+	AST     int      `json:"ast,omitempty"`     // eval: 1-based index into astCorpus() (sources the parser cannot produce)
+	Writers int      `json:"writers,omitempty"` // wrace: goroutines per set
 }
 
-const rule = "histories of GetOrCreateJournal over spellings (order, blanks, braces, quoted/raw values, the printed line of an earlier answer, malformed texts) of 2-4 tag sets whose values come from an alphabet rich in quote, back-quote, comma, equals, braces, blank and non-ASCII bytes, followed by Visit with {tags} (also pairs with the empty value for names a partition lacks) and expression sources and, for a third of them, a restart (a new service loads the index file: tags and answers must be as before); neighbour histories: the partition of a set with a value the quoting rule of line() is about (blank at an end, quote characters, closing brace) is created before the raw text of that set, a spelling of a neighbouring set, is written; expression sources from a grammar over all ten operators in both cases, UPPER/LOWER nesting, NOT, AND, OR, parentheses, valid and malformed LIKE patterns, applied to 4 tag sets; in-process server histories with SHOW PARTITIONS and SELECT FROM; races of 2-8 first writes; a case is non-trivial iff a history has >= 2 distinct partitions and >= 1 text that is not the canonical line of its set, an expression has >= 2 conditions or a function, a race has >= 2 spellings"
+// Op is one operation of an ops history
+type Op struct {
+	K     string `json:"k"`           // call | get | del
+	T     []byte `json:"t,omitempty"` // call, get: the tag text
+	Fault bool   `json:"f,omitempty"` // call: the index cannot be saved during the call
+	I     int    `json:"i,omitempty"` // del: the partition answered by the operation with this index
+}
+
+const rule = "histories of GetOrCreateJournal over spellings (order, blanks, braces, quoted/raw values, the printed line of an earlier answer, malformed texts) of 2-4 tag sets whose values come from an alphabet rich in quote, back-quote, comma, equals, braces, blank and non-ASCII bytes, followed by Visit with {tags} (also pairs with the empty value for names a partition lacks) and expression sources and, for a third of them, a restart (a new service loads the index file: tags and answers must be as before); neighbour histories: the partition of a set with a value the quoting rule of line() is about (blank at an end, quote characters, closing brace) is created before the raw text of that set, a spelling of a neighbouring set, is written; expression sources from a grammar over all ten operators in both cases, UPPER/LOWER nesting, NOT, AND, OR, parentheses, valid and malformed LIKE patterns, applied to 4 tag sets; in-process server histories with SHOW PARTITIONS, SELECT FROM and DESCRIBE PARTITION; histories of GetOrCreateJournal / GetJournal / Delete with a restart; sources built as ASTs the parser cannot produce; queries over 49/50/51 partitions; races of 2-8 first writes at the index and of 3-6 writers per set through the RPC write path with a concurrent reader; a case is non-trivial iff a history has >= 2 distinct partitions and >= 1 text that is not the canonical line of its set, an expression has >= 2 conditions or a function, a race has >= 2 spellings"
 
 var special = []byte{'"', '\\', ',', '=', '{', '}', '`', ' ', 0xc3, 0xa9, 0xff, '\n'}
 var letters = []byte("abcxyz01AZ._-")
@@ -794,6 +808,12 @@ type visitObs struct {
 }
 
 func doVisit(svc tindex.Service, src *lql.Source, ids map[string]int) (vo visitObs) {
+	return doVisitF(svc, src, ids, 0)
+}
+
+// doVisitF: flags = tindex.VF_SKIP_IF_LOCKED takes the other visiting loop (what TRUNCATE uses); with no partition
+// locked exclusively it must select the same partitions
+func doVisitF(svc tindex.Service, src *lql.Source, ids map[string]int, flags int) (vo visitObs) {
 	defer func() {
 		if r := recover(); r != nil {
 			vo = visitObs{kind: "panic"}
@@ -803,7 +823,7 @@ func doVisit(svc tindex.Service, src *lql.Source, ids map[string]int) (vo visitO
 	err := svc.Visit(src, func(ts tag.Set, jrnl string) bool {
 		got = append(got, ids[jrnl])
 		return true
-	}, 0)
+	}, flags)
 	if err != nil {
 		return visitObs{kind: "err"}
 	}
@@ -892,7 +912,7 @@ func mkHist(rp Replay) (*Case, error) {
 			cs.Tags = append(cs.Tags, "source:unparsable")
 			continue
 		}
-		vo := doVisit(svc, src, ids)
+		vo := doVisitF(svc, src, ids, (len(visits)%2)*tindex.VF_SKIP_IF_LOCKED)
 		var items []string
 		for _, id := range vo.ids {
 			items = append(items, GNat(id))
@@ -1089,10 +1109,18 @@ func badLike(src *lql.Source) bool {
 
 func mkEval(rp Replay) (*Case, error) {
 	t := newTables()
-	q := rp.Sources[0]
-	src, err := rParseSource(q)
-	if err != nil {
-		return nil, nil // not a sentence of the language: outside this model (C12)
+	var q string
+	var src *lql.Source
+	var err error
+	if rp.AST > 0 {
+		a := astCorpus()[rp.AST-1]
+		q, src = "<"+a.name+">", a.src
+	} else {
+		q = rp.Sources[0]
+		src, err = rParseSource(q)
+		if err != nil {
+			return nil, nil // not a sentence of the language: outside this model (C12)
+		}
 	}
 	var sets []map[string]string
 	var gsets []string
@@ -1148,6 +1176,21 @@ func mkEval(rp Replay) (*Case, error) {
 		viol = &Violation{Class: cls, Detail: fmt.Sprintf("source %s must be rejected but BuildTagsExpFuncBySource returns no error (nil func: %v)", show(q), tef == nil)}
 	} else if !re.bad && err != nil {
 		viol = &Violation{Class: "from-valid-source-failed", Detail: fmt.Sprintf("source %s: %v", show(q), err)}
+	}
+	if viol == nil && rp.AST == 0 {
+		// the entry point that takes the text (BuildTagsExpFunc = ParseSource + BuildTagsExpFuncBySource): same verdicts
+		tef2, err2 := lql.BuildTagsExpFunc(q)
+		same := (err2 == nil) == (err == nil)
+		if same && err == nil {
+			for _, m := range sets {
+				a, b := false, false
+				quiet(func() { a = tef(tag.MapToSet(m)); b = tef2(tag.MapToSet(m)) })
+				same = same && a == b
+			}
+		}
+		if !same {
+			viol = &Violation{Class: "fromexpr-string-entry-differs", Detail: fmt.Sprintf("source %s: BuildTagsExpFunc (err %v) and BuildTagsExpFuncBySource (err %v) disagree", show(q), err2, err)}
+		}
 	}
 	cs.Oracle = viol
 	cs.Coq = GApp("KEval", t.render(), gsrc, GList(gsets), obs)
@@ -1287,7 +1330,303 @@ func mkE2E(rp Replay) (*Case, error) {
 		}
 	}
 	cs.Coq = GApp("KE2E", t.render(), GList(gtexts), GList(wrote), GList(visits))
+	if cs.Oracle == nil {
+		cs.Oracle = describeOracle(srv, denoted)
+	}
 	return cs, nil
+}
+
+var descLine = regexp.MustCompile(`(?s)\nPartition: (.*)\nId:        ([0-9A-Fa-f]+)\nRecords:   `)
+
+func countShown(srv *Server) int {
+	out, err := srv.Exec("SHOW PARTITIONS")
+	if err != nil {
+		return -1
+	}
+	n := 0
+	for _, l := range strings.Split(out, "\n") {
+		if showLine.MatchString(l) {
+			n++
+		}
+	}
+	return n
+}
+
+// describeOracle: DESCRIBE PARTITION {tags} is the look-up without creation (partition.GetParitionInfo ->
+// tindex.GetJournal): every spelling of a written set names the same partition (same Id, the canonical line), a set
+// that was never written is not found and is NOT created by asking for it
+func describeOracle(srv *Server, denoted map[string]map[string]string) *Violation {
+	before := countShown(srv)
+	for _, k := range sortedKeys2(denoted) {
+		m := denoted[k]
+		ln := lineOf(m)
+		if classifyTags(m) != "" || strings.ContainsAny(ln, "\n") || !utf8.ValidString(ln) {
+			continue // the line does not denote the set / is not one LQL token
+		}
+		var ps []kv
+		ks := sortedKeys(m)
+		for i := len(ks) - 1; i >= 0; i-- {
+			ps = append(ps, kv{ks[i], m[ks[i]]})
+		}
+		idOf := ""
+		for _, lit := range []string{"{" + ln + "}", "{ " + setText(ps) + " }"} {
+			if _, err := rParseSource(lit); err != nil {
+				continue // not one {tags} token for the lexer (C12)
+			}
+			out, err := srv.Exec("DESCRIBE PARTITION " + lit)
+			mm := descLine.FindStringSubmatch(out)
+			switch {
+			case err != nil || mm == nil:
+				return &Violation{Class: "e2e-describe-written-set-not-found", Detail: fmt.Sprintf("DESCRIBE PARTITION %s: err %v, output %s", show(lit), err, show(out))}
+			case mm[1] != ln:
+				return &Violation{Class: "e2e-describe-other-partition", Detail: fmt.Sprintf("DESCRIBE PARTITION %s shows the partition %s", show(lit), show(mm[1]))}
+			case idOf != "" && idOf != mm[2]:
+				return &Violation{Class: "e2e-describe-other-partition", Detail: fmt.Sprintf("two spellings of %s name the partitions %s and %s", show(ln), idOf, mm[2])}
+			}
+			idOf = mm[2]
+		}
+	}
+	if out, err := srv.Exec(`DESCRIBE PARTITION {zz9="never,written"}`); err == nil {
+		return &Violation{Class: "e2e-describe-unwritten-set-found", Detail: show(out)}
+	}
+	if after := countShown(srv); after != before {
+		return &Violation{Class: "e2e-describe-creates-partition", Detail: fmt.Sprintf("%d partitions before DESCRIBE PARTITION of a set never written, %d after", before, after)}
+	}
+	return nil
+}
+
+func sortedKeys2(m map[string]map[string]string) []string {
+	ks := make([]string, 0, len(m))
+	for k := range m {
+		ks = append(ks, k)
+	}
+	sort.Strings(ks)
+	return ks
+}
+
+// mkLimit: a query merges at most 50 partitions (cursor.newCursor -> partition.GetJournals(.., 50)). n partitions
+// {lim=1, i=<k>}; SELECT FROM lim=1 must return one event of every one of them or fail -- never a silent subset --
+// and must succeed below the limit; {tags} and SHOW PARTITIONS have no such limit
+func mkLimit(rp Replay) (*Case, error) {
+	srv, err := StartServer(ServerOpts{})
+	if err != nil {
+		return nil, err
+	}
+	defer srv.Stop()
+	ctx := context.Background()
+	n := rp.Writers
+	for i := 0; i < n; i++ {
+		var res api.WriteResult
+		ev := []*api.LogEvent{{Timestamp: int64(1000 + i), Message: fmt.Sprintf("m%d", i)}}
+		if err := srv.Client.Write(ctx, fmt.Sprintf("lim=1,i=%d", i), "", ev, &res); err != nil || res.Err != nil {
+			return nil, fmt.Errorf("limit: write %d: %v %v", i, err, res.Err)
+		}
+	}
+	cs := &Case{Stream: "limit", Replay: rp, NonTrivial: true, Coq: "(KPanicked [] [])"}
+	cs.Coq = GApp("KRace", newTables().render(), "[]", GNat(0), GNat(0)) // no model behind this case: the oracle decides
+	got, errs := 0, ""
+	WaitFor(30*time.Second, func() bool {
+		var qres api.QueryResult
+		if err := srv.Client.Query(ctx, &api.QueryRequest{Query: "SELECT FROM lim=1 LIMIT 10000", Limit: 10000}, &qres); err != nil {
+			return false
+		}
+		if qres.Err != nil {
+			errs = qres.Err.Error()
+			return true
+		}
+		got = len(qres.Events)
+		return got >= n
+	})
+	shown := countShown(srv)
+	switch {
+	case shown != n:
+		cs.Oracle = &Violation{Class: "e2e-show-partitions-count", Detail: fmt.Sprintf("%d partitions written, SHOW PARTITIONS lists %d", n, shown)}
+	case errs == "" && got != n:
+		cs.Oracle = &Violation{Class: "e2e-select-silent-subset", Detail: fmt.Sprintf("SELECT FROM lim=1 over %d partitions returns %d events and no error", n, got)}
+	case errs != "" && n < 50:
+		cs.Oracle = &Violation{Class: "e2e-select-refused-below-limit", Detail: fmt.Sprintf("%d partitions: %s", n, errs)}
+	case errs != "" && n == 50:
+		cs.Oracle = &Violation{Class: "e2e-select-limit-off-by-one", Detail: fmt.Sprintf("a query over exactly 50 partitions is refused: %s", errs)}
+	case errs == "" && n > 50:
+		cs.Oracle = &Violation{Class: "e2e-select-over-limit-accepted", Detail: fmt.Sprintf("%d partitions, no error", n)}
+	}
+	cs.Tags = append(cs.Tags, fmt.Sprintf("limit:%d", n))
+	return cs, nil
+}
+
+// mkWRace: through the whole write path. For every set (texts i*W .. i*W+W-1 are spellings of set i) W goroutines write
+// one event each at the same time, each through an RPC client of its own; a reader goroutine keeps visiting the index and
+// querying meanwhile. Oracle: at no moment the index shows two partitions with one tag set; afterwards one partition
+// per set, every spelling is answered with it (GetJournal), and every acknowledged event is readable under the
+// canonical line of its set, exactly once.
+func mkWRace(rp Replay) (*Case, error) {
+	srv, err := StartServer(ServerOpts{})
+	if err != nil {
+		return nil, err
+	}
+	defer srv.Stop()
+	ctx := context.Background()
+	w := rp.Writers
+	nsets := len(rp.Texts) / w
+	t := newTables()
+	var setKeys []string
+	var setLines []string
+	for i := 0; i < nsets; i++ {
+		m, err := rToMap(string(rp.Texts[i*w]))
+		if err != nil {
+			return nil, fmt.Errorf("wrace: bad text %q", rp.Texts[i*w])
+		}
+		setKeys = append(setKeys, mapKey(m))
+		setLines = append(setLines, lineOf(m))
+	}
+	for _, tb := range rp.Texts {
+		t.addText(string(tb))
+		if m, e := rToMap(string(tb)); e == nil {
+			t.addText(lineOf(m))
+		}
+	}
+	var wg sync.WaitGroup
+	var mu sync.Mutex
+	acked := map[int]bool{}
+	var clientErr error
+	start := make(chan struct{})
+	for i, tb := range rp.Texts {
+		wg.Add(1)
+		go func(i int, s string) {
+			defer wg.Done()
+			cl, err := rpc.NewClient(transport.Config{ListenAddr: srv.Addr})
+			if err != nil {
+				mu.Lock()
+				clientErr = err
+				mu.Unlock()
+				return
+			}
+			defer cl.Close()
+			<-start
+			var res api.WriteResult
+			ev := []*api.LogEvent{{Timestamp: int64(1000 + i), Message: fmt.Sprintf("m%d", i)}}
+			if err := cl.Write(ctx, s, "", ev, &res); err == nil && res.Err == nil {
+				mu.Lock()
+				acked[i] = true
+				mu.Unlock()
+			}
+		}(i, string(tb))
+	}
+	// the reader
+	stop := make(chan struct{})
+	var rviol *Violation
+	visitsDone := 0
+	var rwg sync.WaitGroup
+	rwg.Add(1)
+	go func() {
+		defer rwg.Done()
+		for {
+			select {
+			case <-stop:
+				return
+			default:
+			}
+			seen := map[string]string{}
+			srv.TIndex.Visit(nil, func(ts tag.Set, jrnl string) bool {
+				k := mapKey(tag.VC08TagMap(ts))
+				if other, ok := seen[k]; ok && rviol == nil {
+					rviol = &Violation{Class: "wrace-reader-sees-set-twice", Detail: fmt.Sprintf("one visit shows the partitions %s and %s for the set %s", other, jrnl, show(string(ts.Line())))}
+				}
+				seen[k] = jrnl
+				return true
+			}, 0)
+			visitsDone++
+			var qres api.QueryResult
+			srv.Client.Query(ctx, &api.QueryRequest{Query: "SELECT LIMIT 1000", Limit: 1000}, &qres)
+		}
+	}()
+	close(start)
+	wg.Wait()
+	close(stop)
+	rwg.Wait()
+	if clientErr != nil {
+		return nil, clientErr
+	}
+	cs := &Case{Stream: "wrace", Replay: rp, NonTrivial: w >= 2, Key: fmt.Sprintf("wrace-%p", &rp), Oracle: rviol}
+	cs.Tags = append(cs.Tags, fmt.Sprintf("wrace:%dx%d", nsets, w))
+	set := func(v *Violation) {
+		if cs.Oracle == nil {
+			cs.Oracle = v
+		}
+	}
+	// one partition per set, every spelling answered with it
+	parts := map[string][]string{}
+	srv.TIndex.Visit(nil, func(ts tag.Set, jrnl string) bool {
+		k := mapKey(tag.VC08TagMap(ts))
+		parts[k] = append(parts[k], jrnl)
+		return true
+	}, 0)
+	distinct, nparts := 0, 0
+	for i := 0; i < nsets; i++ {
+		ids := map[string]bool{}
+		for j := 0; j < w; j++ {
+			src, _, err := srv.TIndex.GetJournal(string(rp.Texts[i*w+j]))
+			if err == nil {
+				srv.TIndex.Release(src)
+				ids[src] = true
+			}
+		}
+		if len(ids) != 1 || len(parts[setKeys[i]]) != 1 {
+			set(&Violation{Class: "race-duplicate-partition", Detail: fmt.Sprintf("%d racing writers of the set %s: its spellings are answered with %d partitions, the index holds %d for it", w, show(setLines[i]), len(ids), len(parts[setKeys[i]]))})
+		}
+		if i == 0 {
+			distinct, nparts = len(ids), len(parts[setKeys[i]])
+		}
+	}
+	if len(parts) != nsets {
+		set(&Violation{Class: "race-duplicate-partition", Detail: fmt.Sprintf("%d sets written, %d different sets in the index", nsets, len(parts))})
+	}
+	// every acknowledged event is readable under the canonical line of its set, once
+	for i := 0; i < nsets; i++ {
+		want := 0
+		for j := 0; j < w; j++ {
+			if acked[i*w+j] {
+				want++
+			}
+		}
+		if want != w {
+			set(&Violation{Class: "wrace-write-refused", Detail: fmt.Sprintf("%d of %d racing writes of %s were acknowledged", want, w, show(setLines[i]))})
+		}
+		lit := "{" + setLines[i] + "}"
+		if _, err := rParseSource(lit); err != nil || cs.Oracle != nil {
+			continue // (a verdict is there already: do not wait for events that may never show up)
+		}
+		cnt := map[string]int{}
+		WaitFor(30*time.Second, func() bool {
+			var qres api.QueryResult
+			if err := srv.Client.Query(ctx, &api.QueryRequest{Query: "SELECT FROM " + lit + " LIMIT 10000", Limit: 10000}, &qres); err != nil || qres.Err != nil {
+				return false
+			}
+			cnt = map[string]int{}
+			for _, e := range qres.Events {
+				cnt[e.Message]++
+			}
+			return len(cnt) >= want
+		})
+		for j := 0; j < w; j++ {
+			if acked[i*w+j] && cnt[fmt.Sprintf("m%d", i*w+j)] != 1 {
+				set(&Violation{Class: "wrace-acknowledged-event-not-under-canonical-line", Detail: fmt.Sprintf("the event written with tags %s is returned %d times by SELECT FROM %s", show(string(rp.Texts[i*w+j])), cnt[fmt.Sprintf("m%d", i*w+j)], show(lit))})
+			}
+		}
+	}
+	// K: the model of the first set's race (any order of the atomic steps gives one id, one partition)
+	cs.Coq = GApp("KRace", t.render(), GListStr(bytesToStrings(rp.Texts[:w])), GNat(distinct), GNat(nparts))
+	c := visitsDone
+	_ = c
+	return cs, nil
+}
+
+func bytesToStrings(bs [][]byte) []string {
+	out := make([]string, len(bs))
+	for i, b := range bs {
+		out[i] = string(b)
+	}
+	return out
 }
 
 func strList(ss []string) []string {
@@ -1296,6 +1635,301 @@ func strList(ss []string) []string {
 		out[i] = GStr(s)
 	}
 	return out
+}
+
+// astCorpus: sources the participle grammar cannot produce but a caller of BuildTagsExpFuncBySource can build: empty
+// lists of conditions (match everything), an operator outside the ten, a function with two parameters
+type astCase struct {
+	name string
+	src  *lql.Source
+}
+
+func astCorpus() []astCase {
+	id := func(op string, ps ...*lql.Identifier) *lql.Identifier {
+		return &lql.Identifier{Operand: op, Params: ps}
+	}
+	cond := func(i *lql.Identifier, op, v string) *lql.XCondition {
+		return &lql.XCondition{Cond: &lql.Condition{Ident: i, Op: op, Value: v}}
+	}
+	ex := func(ocs ...*lql.OrCondition) *lql.Expression { return &lql.Expression{Or: ocs} }
+	and := func(xs ...*lql.XCondition) *lql.OrCondition { return &lql.OrCondition{And: xs} }
+	return []astCase{
+		{"expression without OR-conditions", &lql.Source{Expr: ex()}},
+		{"OR-condition without conditions", &lql.Source{Expr: ex(and())}},
+		{"a=x OR (empty AND)", &lql.Source{Expr: ex(and(cond(id("a"), "=", "x")), and())}},
+		{"NOT (empty expression)", &lql.Source{Expr: ex(and(&lql.XCondition{Not: true, Expr: ex()}))}},
+		{"operator ~", &lql.Source{Expr: ex(and(cond(id("a"), "~", "x")))}},
+		{"a=x AND operator ~", &lql.Source{Expr: ex(and(cond(id("a"), "=", "x"), cond(id("a"), "~", "x")))}},
+		{"upper(a,b)=X", &lql.Source{Expr: ex(and(cond(id("upper", id("a"), id("b")), "=", "X")))}},
+		{"upper()=X", &lql.Source{Expr: ex(and(cond(&lql.Identifier{Operand: "upper", Params: []*lql.Identifier{}}, "=", "X")))}},
+		{"lower(upper(a))=x", &lql.Source{Expr: ex(and(cond(id("lower", id("upper", id("a"))), "=", "x")))}},
+		{"source with neither tags nor expression", &lql.Source{}},
+	}
+}
+
+// mkOps: one tindex service under GetOrCreateJournal, GetJournal (look-up without creation: what DESCRIBE PARTITION
+// uses) and Delete of an exclusively locked partition (what TRUNCATE does to an emptied partition), then visits and a
+// restart. The texts are proper spellings of sets whose line denotes them, so that the reference is simply a map from
+// sets to partitions: a call gives the partition of the set or a new one, a look-up gives it or NotFound and never
+// creates, a deleted set is gone until it is written again, and then it gets a partition never seen before.
+func mkOps(rp Replay) (*Case, error) {
+	dir := TempDir("c06-tindex")
+	defer RemoveAll(dir)
+	defer RemoveAll(dir + ".off")
+	svc := tindex.NewInmemServiceWithConfig(tindex.InMemConfig{WorkingDir: dir})
+	t := newTables()
+	ids := map[string]int{}    // every partition id ever answered, in order of first appearance
+	ref := map[string]string{} // set -> live partition
+	live := map[string]bool{}  // live partitions
+	partMaps := map[int]map[string]string{}
+	srcAt := map[int]string{}
+	var gops, obs, texts []string
+	var calls []callRes
+	cs := &Case{Stream: "ops", Replay: rp}
+	fail := func(i int, format string, a ...interface{}) {
+		if cs.Oracle == nil {
+			cs.Oracle = &Violation{Class: "ops-identity", Detail: fmt.Sprintf("operation %d of %s: ", i, showOps(rp.Ops)) + fmt.Sprintf(format, a...)}
+		}
+	}
+	ndel := 0
+	for i, op := range rp.Ops {
+		s := string(op.T)
+		switch op.K {
+		case "call", "get":
+			t.addText(s)
+			den, derr := rToMap(s)
+			if derr != nil {
+				den = nil
+			}
+			var src string
+			var set tag.Set
+			var err error
+			// a call that meets a record left behind in the exclusively locked state spins for ever: a watchdog makes
+			// that a verdict (the goroutine is abandoned with the service)
+			hung := false
+			if op.K == "call" {
+				gops = append(gops, GApp("HCall", GStr(s), GBool(op.Fault)))
+				if op.Fault {
+					if err := os.Rename(dir, dir+".off"); err != nil {
+						return nil, err
+					}
+				}
+				hung = !within(10*time.Second, func() { src, set, err = rGoc(svc, s) })
+				if op.Fault {
+					if e := os.Rename(dir+".off", dir); e != nil {
+						return nil, e
+					}
+				}
+			} else {
+				gops = append(gops, GApp("HGet", GStr(s)))
+				hung = !within(10*time.Second, func() {
+					defer guard("tindex.GetJournal", s)
+					src, set, err = svc.GetJournal(s)
+				})
+			}
+			if hung {
+				cs.Oracle = &Violation{Class: "ops-call-does-not-return", Detail: fmt.Sprintf("operation %d of %s does not return within 10 s", i, showOps(rp.Ops))}
+				cs.Coq = GApp("KPanicked", GStr("tindex."+op.K), GStr(s))
+				cs.NonTrivial = true
+				return cs, nil
+			}
+			if err != nil {
+				if op.K == "get" && err == errors2.NotFound {
+					obs = append(obs, GSome(GNone))
+				} else {
+					obs = append(obs, GNone)
+				}
+				switch {
+				case den == nil || len(den) == 0:
+				case ref[mapKey(den)] != "":
+					fail(i, "%s(%s) fails (%v) though the set has the partition %d", op.K, show(s), err, ids[ref[mapKey(den)]])
+				case op.K == "call" && !op.Fault:
+					fail(i, "GetOrCreateJournal(%s) fails: %v", show(s), err)
+				case op.K == "get" && err != errors2.NotFound:
+					fail(i, "GetJournal(%s) of a set without partition fails with %v, not with NotFound", show(s), err)
+				}
+				continue
+			}
+			svc.Release(src)
+			m := tag.VC08TagMap(set)
+			t.addMap(m)
+			t.addText(string(set.Line()))
+			if _, ok := ids[src]; !ok {
+				ids[src] = len(ids)
+				if op.K == "get" {
+					fail(i, "GetJournal(%s) answers with a partition never seen before", show(s))
+				}
+			}
+			ts2, e2 := svc.GetJournalTags(src, false)
+			bySrc := e2 == nil && mapKey(tag.VC08TagMap(ts2)) == mapKey(m)
+			obs = append(obs, GSome(GSome(GTuple(GNat(ids[src]), gMap(m), GBool(bySrc)))))
+			switch {
+			case den == nil || len(den) == 0:
+				fail(i, "%s(%s) is answered though the text denotes no tag set", op.K, show(s))
+			case mapKey(m) != mapKey(den):
+				fail(i, "%s(%s) is answered with the set %s", op.K, show(s), show(mapKey(m)))
+			case ref[mapKey(den)] != "" && ref[mapKey(den)] != src:
+				fail(i, "%s(%s): the set has the partition %d, the answer is %d", op.K, show(s), ids[ref[mapKey(den)]], ids[src])
+			case ref[mapKey(den)] == "" && (op.K == "get" || live[src] || partMaps[ids[src]] != nil):
+				fail(i, "%s(%s): the set has no partition, the answer is the partition %d", op.K, show(s), ids[src])
+			case !bySrc:
+				fail(i, "the partition %d is not found by its id with the same tags", ids[src])
+			}
+			ref[mapKey(m)], live[src], partMaps[ids[src]], srcAt[i] = src, true, m, src
+			texts = append(texts, s)
+			calls = append(calls, callRes{src: src, retMap: m, denoted: den})
+		case "del":
+			src := srcAt[op.I]
+			if src == "" {
+				continue // the operation it refers to was not answered: nothing to delete
+			}
+			gops = append(gops, GApp("HDel", GNat(ids[src])))
+			_, gerr := svc.GetJournalTags(src, true)
+			if gerr != nil {
+				obs = append(obs, GSome(GNone))
+				if live[src] {
+					fail(i, "the live partition %d is not found by its id: %v", ids[src], gerr)
+				}
+				continue
+			}
+			if !live[src] {
+				fail(i, "the deleted partition %d is found by its id", ids[src])
+			}
+			if !svc.LockExclusively(src) {
+				svc.Release(src)
+				return nil, fmt.Errorf("ops: LockExclusively(%s) refused with one reader", src)
+			}
+			if err := svc.Delete(src); err != nil {
+				fail(i, "Delete of the exclusively locked partition %d: %v", ids[src], err)
+			}
+			obs = append(obs, GSome(GSome(GTuple(GNat(ids[src]), "[]", GBool(true)))))
+			for k, v := range ref {
+				if v == src {
+					delete(ref, k)
+				}
+			}
+			delete(live, src)
+			delete(partMaps, ids[src])
+			ndel++
+		default:
+			return nil, fmt.Errorf("ops: unknown operation %q", op.K)
+		}
+	}
+	liveIds := map[string]int{}
+	for src := range live {
+		liveIds[src] = ids[src]
+	}
+	var visits []string
+	for _, q := range rp.Sources {
+		src, err := rParseSource(q)
+		if err != nil {
+			continue
+		}
+		vo := doVisitF(svc, src, ids, (len(visits)%2)*tindex.VF_SKIP_IF_LOCKED)
+		var items []string
+		for _, id := range vo.ids {
+			items = append(items, GNat(id))
+		}
+		visits = append(visits, GPair(gSource(src, t), gVres(vo.kind, items)))
+		if cs.Oracle == nil {
+			cs.Oracle = selectionOracle(q, src, vo, partMaps)
+		}
+		if vo.kind == "panic" {
+			break
+		}
+	}
+	cs.Coq = GApp("KOps", t.render(), GList(gops), GList(obs), GList(visits))
+	if rp.Restart {
+		var liveCalls []callRes
+		var liveTexts []string
+		for k, c := range calls {
+			if ref[mapKey(c.retMap)] == c.src {
+				liveCalls = append(liveCalls, c)
+				liveTexts = append(liveTexts, texts[k])
+			}
+		}
+		cs.Tags = append(cs.Tags, restartOracle(cs, dir, liveTexts, liveCalls, liveIds, partMaps))
+	}
+	cs.Tags = append(cs.Tags, fmt.Sprintf("ops:deleted-%d", ndel))
+	cs.NonTrivial = len(ids) >= 2
+	return cs, nil
+}
+
+// within runs f and reports whether it returned in time; a panic of f is passed on
+func within(d time.Duration, f func()) bool {
+	done := make(chan interface{}, 1)
+	go func() {
+		defer func() { done <- recover() }()
+		f()
+	}()
+	select {
+	case r := <-done:
+		if r != nil {
+			panic(r)
+		}
+		return true
+	case <-time.After(d):
+		return false
+	}
+}
+
+func showOps(ops []Op) string {
+	var q []string
+	for _, o := range ops {
+		switch o.K {
+		case "del":
+			q = append(q, fmt.Sprintf("del(#%d)", o.I))
+		default:
+			f := ""
+			if o.Fault {
+				f = "!"
+			}
+			q = append(q, o.K+f+"("+show(string(o.T))+")")
+		}
+	}
+	return "[" + strings.Join(q, " ") + "]"
+}
+
+// genOps: 2-4 sets whose line denotes them, 6-14 operations over proper spellings and lines
+func genOps(r *Rng) Replay {
+	var sets [][]kv
+	for len(sets) < r.Range(2, 4) {
+		ps := genSet(r, r.PickInt(0, 10, 30))
+		ok := true
+		quiet(func() {
+			m := toMap(ps)
+			back, err := rToMap(lineOf(m))
+			ok = classifyTags(m) == "" && err == nil && mapKey(back) == mapKey(m) && utf8.ValidString(lineOf(m))
+		})
+		if ok {
+			sets = append(sets, ps)
+		}
+	}
+	var ops []Op
+	n := r.Range(6, 14)
+	for i := 0; i < n; i++ {
+		ps := sets[r.Intn(len(sets))]
+		txt := spell(r, ps, true)
+		if r.Chance(1, 4) {
+			txt = lineOf(toMap(ps))
+		}
+		x := r.Intn(10)
+		switch {
+		case x < 5:
+			ops = append(ops, Op{K: "call", T: []byte(txt), Fault: r.Chance(1, 8)})
+		case x < 8:
+			ops = append(ops, Op{K: "get", T: []byte(txt)})
+		default:
+			if i > 0 {
+				ops = append(ops, Op{K: "del", I: r.Intn(i)})
+			}
+		}
+	}
+	var srcs []string
+	for k := r.Range(2, 4); k > 0; k-- {
+		srcs = append(srcs, genSource(r, sets))
+	}
+	return Replay{Kind: "ops", Ops: ops, Sources: srcs, Restart: r.Chance(1, 2)}
 }
 
 func mkRace(rp Replay) (*Case, error) {
@@ -1375,6 +2009,12 @@ func mkCase1(rp Replay) (*Case, error) {
 		return mkE2E(rp)
 	case "race":
 		return mkRace(rp)
+	case "ops":
+		return mkOps(rp)
+	case "limit":
+		return mkLimit(rp)
+	case "wrace":
+		return mkWRace(rp)
 	}
 	return nil, fmt.Errorf("unknown case kind %q", rp.Kind)
 }
@@ -1536,6 +2176,45 @@ func main() {
 				faults[k] = r.Chance(1, 4)
 			}
 			jobs = append(jobs, Replay{Kind: "e2e", Texts: texts, Faults: faults, Sources: srcs, Show: shows})
+		}
+		// look-up without creation, deletion and re-creation
+		jobs = append(jobs,
+			Replay{Kind: "ops", Restart: true, Sources: []string{"", "{a=1}", "b=2"},
+				Ops: []Op{{K: "get", T: []byte(`a=1,b=2`)}, {K: "call", T: []byte(`a=1,b=2`)}, {K: "get", T: []byte(`{ b ="2",a=1}`)},
+					{K: "call", T: []byte(`c=3`)}, {K: "del", I: 1}, {K: "get", T: []byte(`a=1,b=2`)}, {K: "del", I: 1},
+					{K: "call", T: []byte(`b=2,a=1`)}, {K: "get", T: []byte(`a=1,b=2`)}, {K: "get", T: []byte(`c=3`)}, {K: "get", T: []byte(`c=4`)}}},
+			Replay{Kind: "ops", Restart: true, Sources: []string{"", `{name="app "}`},
+				Ops: []Op{{K: "call", T: []byte(`name="app "`)}, {K: "get", T: []byte(`name=app`)}, {K: "call", T: []byte(`name=app`)},
+					{K: "del", I: 0}, {K: "get", T: []byte(`name="app "`)}, {K: "get", T: []byte(`name=app `)}, {K: "call", T: []byte(`name="app "`), Fault: true},
+					{K: "call", T: []byte(`{name="app "}`)}}})
+		for i := 0; i < c.N(50); i++ {
+			jobs = append(jobs, genOps(r))
+		}
+		// sources the parser cannot produce, applied to four sets
+		for i := range astCorpus() {
+			jobs = append(jobs, Replay{Kind: "eval", AST: i + 1, Sets: bs(`a=x`, `a=X,b=1`, `b=x`, `a=""`)})
+		}
+		// the 50-partition limit of a query
+		for _, n := range []int{49, 50, 51} {
+			jobs = append(jobs, Replay{Kind: "limit", Writers: n})
+		}
+		// racing writers through the whole write path, with a reader
+		for i := 0; i < c.N(3); i++ {
+			w := r.Range(3, 6)
+			var texts [][]byte
+			for k := r.Range(2, 3); k > 0; k-- {
+				var ps []kv
+				for {
+					ps = genSet(r, 10)
+					if classifyTags(toMap(ps)) == "" && utf8.ValidString(lineOf(toMap(ps))) {
+						break
+					}
+				}
+				for j := 0; j < w; j++ {
+					texts = append(texts, []byte(spell(r, ps, true)))
+				}
+			}
+			jobs = append(jobs, Replay{Kind: "wrace", Texts: texts, Writers: w})
 		}
 		for i := 0; i < c.N(12); i++ {
 			ps := genSet(r, 10)
